@@ -12,12 +12,12 @@ def cast2 (p : Nat × Nat) : Int × Int := ((p.1 : Int), (p.2 : Int))
 
 theorem loop_eq (ns w ov : Nat) (hov : ov < w) (fuel : Nat) :
     ∀ (first : Nat) (iw : Int), ns - first < fuel →
-      Src.wg_firstlast_loop1 ns w ov fuel first iw = (Window.firstlastAux ns w ov first).map cast2 := by
+      Src.C17.wg_firstlast_loop1 ns w ov fuel first iw = (Window.firstlastAux ns w ov first).map cast2 := by
   induction fuel with
   | zero => intro first iw h; omega
   | succ n ih =>
     intro first iw hf
-    unfold Src.wg_firstlast_loop1 Window.firstlastAux
+    unfold Src.C17.wg_firstlast_loop1 Window.firstlastAux
     by_cases h : first + w < ns
     · have h2 : min ((first : Int) + (w : Int)) (ns : Int) = ((first + w : Nat) : Int) := by omega
       have h1 : ¬ (((first + w : Nat) : Int) = (ns : Int)) := by omega
@@ -31,8 +31,8 @@ theorem loop_eq (ns w ov : Nat) (hov : ov < w) (fuel : Nat) :
 
 /-- `WindowGenerator.firstlast` as written in the source = the model, for every admissible triple. -/
 theorem firstlast_eq (ns w ov : Nat) (hov : ov < w) (fuel : Nat) (hf : ns < fuel) :
-    Src.wg_firstlast ns w ov fuel = (Window.firstlast ns w ov).map cast2 := by
-  unfold Src.wg_firstlast Window.firstlast
+    Src.C17.wg_firstlast ns w ov fuel = (Window.firstlast ns w ov).map cast2 := by
+  unfold Src.C17.wg_firstlast Window.firstlast
   simp only [hov, if_true]
   exact loop_eq ns w ov hov fuel 0 0 (by omega)
 
@@ -42,8 +42,8 @@ def cast4 (p : Nat × Nat × Nat × Nat) : Int × Int × Int × Int :=
 /-- `WindowGenerator.firstlast_valid` as written in the source = the model (`overlap ≤ first window`…: the model's
 truncated subtraction never truncates because every non-final window is longer than the overlap). -/
 theorem firstlast_valid_eq (ns w ov : Nat) (hov : ov < w) (fuel : Nat) (hf : ns < fuel) :
-    Src.wg_firstlast_valid ns w ov fuel = (Window.firstlastValid ns w ov).map cast4 := by
-  unfold Src.wg_firstlast_valid Window.firstlastValid
+    Src.C17.wg_firstlast_valid ns w ov fuel = (Window.firstlastValid ns w ov).map cast4 := by
+  unfold Src.C17.wg_firstlast_valid Window.firstlastValid
   rw [firstlast_eq ns w ov hov fuel hf]
   have key : ∀ L : List (Nat × Nat), (∀ fl ∈ L, fl.2 ≠ ns → ov / 2 ≤ fl.2) →
       List.flatMap (fun ((first, last) : Int × Int) =>
@@ -90,8 +90,8 @@ theorem ceilDiv_nat (m d : Nat) (hd : 0 < d) : pyCeilDiv (m : Int) (d : Int) = (
 
 /-- the window-count expression of `WindowGenerator.__init__` as written in the source = the model's `nwin`
 (the float quotient read as an exact rational: see the translator's assumption). -/
-theorem nwin_eq (ns w ov : Nat) (hov : ov < w) : Src.wg_nwin ns w ov = (Window.nwin ns w ov : Int) := by
-  unfold Src.wg_nwin Window.nwin
+theorem nwin_eq (ns w ov : Nat) (hov : ov < w) : Src.C17.wg_nwin ns w ov = (Window.nwin ns w ov : Int) := by
+  unfold Src.C17.wg_nwin Window.nwin
   by_cases h : w ≤ ns
   · have e1 : (ns : Int) - (w : Int) = ((ns - w : Nat) : Int) := by omega
     have e2 : (w : Int) - (ov : Int) = ((w - ov : Nat) : Int) := by omega
